@@ -6,7 +6,8 @@
 From Coq Require Import String.
 From Coq Require Import List NArith ZArith Bool Lia.
 From Coq Require Import ZifyN ZifyNat ZifyBool.
-From Verif Require Import Lib.Bytes Lib.Codec Lib.Path Lib.GoLib Cred.Sign Cred.SignProofs Gen.CodeCred Cred.CodeCands.
+From Verif Require Import Lib.Bytes Lib.Codec Lib.Path Lib.GoLib Cred.Sign Cred.SignProofs Cred.Jwt Cred.JwtProofs
+  Cred.PassCode Cred.PassCodeProofs Gen.CodeCred Cred.CodeCands.
 Import ListNotations.
 Local Open Scope Z_scope.
 Ltac Zify.zify_post_hook ::= Z.div_mod_to_equations.
@@ -156,3 +157,133 @@ Section WithMac.
     - destruct (Nat.eqb_spec (length bs) 8); [lia|reflexivity].
   Qed.
 End WithMac.
+
+(** ** jwt/time.go: CheckTime
+
+    The translator reads [time.Time] as exact nanoseconds; the model follows
+    the [int64] wrap of [time.Unix] and the saturation of [Add].  For claim
+    times clear of the wrap ([unix_in_range], |sec| <= 2^62: every real
+    token) they give the same verdict at every instant. *)
+Lemma before_now_b a now :
+  time_before a 0 (now_ext now) (now_nsec now) = ((a - unix_to_internal) * sec_ns <? now).
+Proof.
+  apply eq_true_iff_eq. rewrite before_now, Z.ltb_lt. reflexivity.
+Qed.
+
+Lemma gen_CheckTime_is_model : forall c now,
+  unix_in_range (c_iat c) -> unix_in_range (c_exp c) ->
+  jwt_time_err (snd (gen_jwt_CheckTime (c_iat c) (c_exp c) now)) = check_time c now.
+Proof.
+  intros c now Ri Re. unfold check_time.
+  rewrite (ext_of_unix_in_range _ Ri), (ext_of_unix_in_range _ Re).
+  rewrite add_sec_sat_small;
+    [|unfold unix_in_range, unix_to_internal in *; lia|unfold grace_sec; lia|unfold grace_sec; lia].
+  rewrite !before_now_b.
+  unfold gen_jwt_CheckTime. go_time. unfold grace_sec, sec_ns, unix_to_internal. cbv zeta.
+  go_cases; cbn [snd jwt_time_err String.eqb Ascii.eqb Bool.eqb]; try reflexivity; go_arith; exfalso; lia.
+Qed.
+
+(** On success the duration returned is the remaining lifetime. *)
+Lemma code_CheckTime_left : forall iat exp now,
+  snd (gen_jwt_CheckTime iat exp now) = None ->
+  fst (gen_jwt_CheckTime iat exp now) = time_Sub (exp * 1000000000) now.
+Proof.
+  intros iat exp now. unfold gen_jwt_CheckTime, time_Add, time_Before, time_After, time_Unix, time_ns_per_sec.
+  cbv zeta. rewrite !Z.add_0_r.
+  go_cases; cbn [fst snd]; try discriminate; reflexivity.
+Qed.
+
+(** ** roles/pass_code.go: checkPassCode
+
+    The model names passcode texts by numbers (0 = the empty string); [text]
+    is any injective naming with [text 0 = ""].  The Go function reads the
+    record through a pointer; [run_checkPassCode] passes what it reads. *)
+Lemma gen_checkPassCode_is_model : forall (text : N -> list N) claim pc now,
+  text 0%N = [] -> (forall a b, text a = text b -> a = b) ->
+  pc_err_code (run_checkPassCode text claim pc now) = checkPassCode claim pc now.
+Proof.
+  intros text claim pc now T0 Tinj.
+  unfold run_checkPassCode, gen_roles_checkPassCode, gen_roles_subtleStringEq, gen_roles_passCodeMaxTries,
+    subtle_ConstantTimeCompare, checkPassCode, max_tries, go_str_eqb.
+  go_time. cbv zeta.
+  assert (E0 : str_eqb (text claim) [] = (claim =? 0)%N).
+  { apply eq_true_iff_eq. rewrite str_eqb_eq, N.eqb_eq. split; [intros H; apply Tinj; congruence|intros ->; exact T0]. }
+  rewrite E0.
+  destruct pc as [c|]; cbn [pc_args].
+  - assert (E1 : beq_bytes (text (p_code c)) (text claim) = (p_code c =? claim)%N).
+    { apply eq_true_iff_eq. rewrite beq_bytes_spec, N.eqb_eq. split; [apply Tinj|congruence]. }
+    rewrite E1, Z.gtb_ltb.
+    go_cases; cbn [pc_err_code String.eqb Ascii.eqb Bool.eqb]; try reflexivity; try discriminate.
+  - go_cases; reflexivity.
+Qed.
+
+(** ** Property theorems read over the code *)
+
+(** The lifetime [Sessions.New] grants is capped by the configured one,
+    positive when that is, and the requested one when it is admissible. *)
+Lemma code_session_ttl_capped : forall maxttl t0 ttl,
+  gen_signer_Sessions_New_expires maxttl t0 ttl <= t0 + maxttl /\
+  (0 < maxttl -> t0 < gen_signer_Sessions_New_expires maxttl t0 ttl) /\
+  (0 < ttl <= maxttl -> gen_signer_Sessions_New_expires maxttl t0 ttl = t0 + ttl).
+Proof.
+  intros. rewrite gen_New_expires_is_model.
+  pose proof (eff_ttl_capped maxttl ttl). split; [lia|]. split.
+  - intros H0. pose proof (eff_ttl_positive maxttl ttl H0). lia.
+  - intros H0. now rewrite (eff_ttl_honoured maxttl ttl H0).
+Qed.
+
+(** [Sessions.Check] accepts exactly the signed, unexpired sessions. *)
+Lemma code_session_check_iff : forall K (mac : K -> bytes -> bytes),
+  (forall k d, List.length (mac k d) = mac_size) -> (forall k d, is_bytes (mac k d)) ->
+  forall k now s d left, go_sized s ->
+  gen_signer_Sessions_Check (mac k) now s = (d, left, true) <->
+  exists e, is_int64 e /\ is_bytes d /\ s = sign_hex mac k (le64 (u64_of_int e) ++ d)
+            /\ now < e /\ left = clamp_dur (e - now).
+Proof.
+  intros K mac Hl Hb k now s d left Hsz.
+  rewrite gen_Sessions_Check_is_model by exact Hsz.
+  rewrite <- (sess_check_iff mac Hl Hb k now s d left).
+  destruct (sess_check mac k now s) as [[d' l']|]; cbn [sess_res]; split; intros E;
+    try discriminate; injection E as -> ->; reflexivity.
+Qed.
+
+(** [TimeSigner.Check] accepts exactly the signed instants strictly inside the window. *)
+Lemma code_time_token_check_iff : forall K (mac : K -> bytes -> bytes),
+  (forall k d, List.length (mac k d) = mac_size) -> (forall k d, is_bytes (mac k d)) ->
+  forall k w now s, - two63z < w < two63z -> go_sized s ->
+  gen_signer_TimeSigner_Check (mac k) (abs_window w) now s = true <->
+  exists t, is_int64 t /\ s = ts_token mac k t /\ now - Z.abs w < t < now + Z.abs w.
+Proof.
+  intros K mac Hl Hb k w now s Hw Hsz.
+  rewrite gen_TimeSigner_Check_is_model by assumption.
+  apply (ts_check_iff mac Hl Hb).
+Qed.
+
+(** [jwt.CheckTime] lets a token through exactly inside its time bounds (with
+    the five-minute grace on the issue time). *)
+Lemma code_jwt_time : forall iat exp now,
+  unix_in_range iat -> unix_in_range exp ->
+  snd (gen_jwt_CheckTime iat exp now) = None <-> iat * sec_ns - grace_ns < now <= exp * sec_ns.
+Proof.
+  intros iat exp now Ri Re.
+  rewrite <- (check_time_iff (mkC [] [] [] exp iat [] []) now Ri Re).
+  rewrite <- (gen_CheckTime_is_model (mkC [] [] [] exp iat [] []) now Ri Re). cbn [c_iat c_exp].
+  destruct (snd (gen_jwt_CheckTime iat exp now)) as [[k m]|]; cbn [jwt_time_err]; split; try congruence.
+  go_cases; discriminate.
+Qed.
+
+(** A stored passcode record that lacks its window never lets an attempt through. *)
+Lemma code_passcode_missing_window : forall (text : N -> list N) claim c t,
+  text 0%N = [] -> (forall a b, text a = text b -> a = b) ->
+  p_has_valid c = false \/ p_has_expire c = false ->
+  run_checkPassCode text claim (Some c) t <> None.
+Proof.
+  intros text claim c t T0 Ti H E.
+  apply (missing_window_never_accepted claim c t H).
+  rewrite <- (gen_checkPassCode_is_model text claim (Some c) t T0 Ti), E. reflexivity.
+Qed.
+
+Lemma cex_cred_none :
+  cex_inWindow = [] /\ cex_refreshTTL = [] /\ cex_NeedRefresh = [] /\ cex_New_expires = [] /\
+  cex_Signer_Check = [] /\ cex_Signer_CheckHex = [] /\ cex_CheckTime = [] /\ cex_checkPassCode = [].
+Proof. vm_compute. repeat split. Qed.
